@@ -149,7 +149,7 @@ pub fn run(seed: u64, thorough: bool, out_dir: &std::path::Path, scratch: &std::
                                     viol.push(json!({"what": "a membership proof verifies against the root of a different chain prefix", "detail": {"history": h.jops, "leaves": leaves}}));
                                 }
                                 // a digest of a block that is not on the main chain must not verify
-                                if let Some(stale) = h.stash.first() {
+                                if let Some(stale) = h.stash.iter().find(|b| !main.iter().any(|m| m.hash() == b.hash())) {
                                     let mut bad = items.clone();
                                     bad[0].1 = stale.header().digest();
                                     if proof.verify(roots[tip as usize].clone(), bad).unwrap_or(false) {
